@@ -43,26 +43,28 @@ def TAG_WIDTH(n):
 
 
 def _native_L(t):
-    """The Specification's bit length set of a real type object, computed recursively (brute force)."""
+    """The Specification's bit length set of a real type object, as a lazily evaluated set expression (c01.NSet: exact
+    min / max / residues even when the set is far too large to enumerate)."""
+    from .c01 import NSet
+
+    leaf = lambda *xs: NSet("leaf", frozenset(xs))
     name = type(t).__name__
     if hasattr(t, "bit_length") and not hasattr(t, "element_type") and not hasattr(t, "fields"):
-        return frozenset([t.bit_length])
+        return leaf(t.bit_length)
     if name == "FixedLengthArrayType":
-        return st.native_kfold(_native_L(t.element_type), t.capacity)
+        return NSet("rep", _native_L(t.element_type), t.capacity)
     if name == "VariableLengthArrayType":
-        return frozenset(PREFIX_WIDTH(t.capacity) + x for x in rangefold(_native_L(t.element_type), t.capacity))
+        return NSet("cat", [leaf(PREFIX_WIDTH(t.capacity)), NSet("rng", _native_L(t.element_type), t.capacity)])
     if name == "StructureType":
-        cur = frozenset([0])
+        cur = leaf(0)
         for f in t.fields:
-            a = _native_A(f.data_type)
-            cur = frozenset(st.native_pad(a, x) + y for x in cur for y in _native_L(f.data_type))
-        return frozenset(st.native_pad(8, x) for x in cur)
+            cur = NSet("cat", [NSet("pad", cur, _native_A(f.data_type)), _native_L(f.data_type)])
+        return NSet("pad", cur, 8)
     if name == "UnionType":
         n = len(t.fields)
-        u = frozenset().union(*[_native_L(f.data_type) for f in t.fields])
-        return frozenset(st.native_pad(8, TAG_WIDTH(n) + x) for x in u)
+        return NSet("pad", NSet("cat", [leaf(TAG_WIDTH(n)), NSet("uni", [_native_L(f.data_type) for f in t.fields])]), 8)
     if name == "DelimitedType":
-        return frozenset(32 + 8 * j for j in range(t.extent // 8 + 1))
+        return NSet("cat", [leaf(32), NSet("rng", leaf(8), t.extent // 8)])
     raise TypeError(name)
 
 
@@ -93,9 +95,11 @@ def SFOLD(types):
         for t in (types.items if isinstance(types, PyList) else types):
             cur = sumset(padset(cur, A(t)), L(t))
         return cur
-    cur = frozenset([0])
+    from .c01 import NSet
+
+    cur = NSet("leaf", frozenset([0]))
     for t in types:
-        cur = frozenset(st.native_pad(_native_A(t), x) + y for x in cur for y in _native_L(t))
+        cur = NSet("cat", [NSet("pad", cur, _native_A(t)), _native_L(t)])
     return cur
 
 
@@ -106,7 +110,9 @@ def UNIONS_L(types):
         items = types.items if isinstance(types, PyList) else list(types)
         s = st.seq_of_sets(speclib.CTX, [L(t) for t in items])
         return SymSet(st.unions_f(s.arr, s.length))
-    return frozenset().union(*[_native_L(t) for t in types])
+    from .c01 import NSet
+
+    return NSet("uni", [_native_L(t) for t in types])
 
 
 def L_formula(t):
@@ -194,7 +200,11 @@ class _SerializableSpec:
     def invariant(self, skip=()):
         if "wft" in skip:
             return {}
-        return {"wft": OR(ISINST(self, "ServiceType"), lambda: WFT(self))}
+        svc = ISINST(self, "ServiceType")
+        # WFT(self), clause by clause (a service type is not serializable and has no layout)
+        return {"wft-nonempty": OR(svc, lambda: WFSET(L(self))),
+                "wft-lengths-aligned": OR(svc, lambda: ALIGNED(L(self), A(self))),
+                "wft-alignment-is-1-or-8": OR(svc, lambda: OR(A(self) == 1, A(self) == 8))}
 
 
 @class_spec(PRIMITIVE)
@@ -546,3 +556,174 @@ NOT_COVERED = ["that the parser hands the right arguments to these constructors 
 EXPLANATION = ("Every constructor establishes: bit_length_set denotes the Specification's L(T) (written independently), all "
                "lengths are multiples of the alignment, prefixes/tags/headers have the specified widths, sealed extent = "
                "longest representation, delimited set = header + {0, 8, ..., extent}.")
+
+
+# ------------------------------------------------------------------------------------------------ native harness
+# The same contracts, read natively on real type objects: random nested types (arrays of composites of arrays ...),
+# capacities and variant counts at every prefix / tag width boundary.  Bounded; reported under coverage.bounded.
+from pyvc.native import NativeSuite
+
+NATIVE = NativeSuite()
+NATIVE_BUDGET = {"quick": 120, "thorough": 2000}
+_BOUNDARY_CAPS = [1, 2, 3, 7, 8, 255, 256, 257, 65535, 65536, 65537, 2 ** 32 - 1, 2 ** 32, 2 ** 32 + 1, 2 ** 63]
+
+
+def _gen_type(rng, depth, big=True):
+    kinds = ["prim", "prim", "fixed", "var", "struct", "union", "delimited"] if depth > 0 else ["prim"]
+    k = rng.choice(kinds)
+    if k == "prim":
+        return ["prim", rng.choice(["bool", "uint", "int", "float", "void", "byte", "utf8"]), rng.choice([1, 2, 3, 7, 8, 9, 16, 17, 32, 33, 63, 64])]
+    if k == "fixed":
+        return ["fixed", _gen_type(rng, depth - 1), rng.choice([1, 2, 3, 5] + ([2 ** 40] if big and rng.random() < 0.2 else []))]
+    if k == "var":
+        return ["var", _gen_type(rng, depth - 1), rng.choice([1, 2, 3] + (_BOUNDARY_CAPS if big else []))]
+    n = rng.choice([0, 1, 2, 3]) if k != "union" else rng.choice([2, 3])
+    fields = [_gen_type(rng, depth - 1) for _ in range(n)]
+    if k == "delimited":
+        return ["delimited", ["struct", fields], rng.choice([0, 8, 64, 1024])]
+    return [k, fields]
+
+
+def _build_type(t, counter=None):
+    import pydsdl
+    from pydsdl import _serializable as S
+    from pathlib import Path
+
+    counter = counter if counter is not None else [0]
+    k = t[0]
+    if k == "prim":
+        name, w = t[1], t[2]
+        CM = S.PrimitiveType.CastMode
+        if name == "bool":
+            return S.BooleanType()
+        if name == "uint":
+            return S.UnsignedIntegerType(w, CM.TRUNCATED)
+        if name == "int":
+            return S.SignedIntegerType(max(2, w), CM.SATURATED)
+        if name == "float":
+            return S.FloatType(min([16, 32, 64], key=lambda x: abs(x - w)), CM.SATURATED)
+        if name == "void":
+            return S.VoidType(w)
+        if name == "byte":
+            return S.ByteType()
+        return S.UTF8Type()
+    if k == "fixed":
+        return S.FixedLengthArrayType(_build_type(t[1], counter), t[2])
+    if k == "var":
+        return S.VariableLengthArrayType(_build_type(t[1], counter), t[2])
+    if k == "delimited":
+        inner = _build_type(t[1], counter)
+        ext = max(t[2], inner.extent)
+        return S.DelimitedType(inner, ext + (-ext) % 8)
+    counter[0] += 1
+    attrs = []
+    for i, ft in enumerate(t[1]):
+        dt = _build_type(ft, counter)
+        if isinstance(dt, S.VoidType):
+            if k == "union":
+                dt = S.UnsignedIntegerType(dt.bit_length, S.PrimitiveType.CastMode.TRUNCATED)
+                attrs.append(S.Field(dt, "f%d" % i))
+            else:
+                attrs.append(S.PaddingField(dt))
+        elif isinstance(dt, (S.ByteType, S.UTF8Type)):
+            attrs.append(S.Field(S.VariableLengthArrayType(dt, 3), "f%d" % i))
+        else:
+            attrs.append(S.Field(dt, "f%d" % i))
+    cls = S.StructureType if k == "struct" else S.UnionType
+    return cls(name="ns.T%d" % counter[0], version=S.Version(1, 0), attributes=attrs, deprecated=False, fixed_port_id=None,
+               source_file_path=Path("/tmp/ns/T%d.1.0.dsdl" % counter[0]), has_parent_service=False)
+
+
+def _type_case(member, roots):
+    def gen(rng, i):
+        for _ in range(20):
+            t = _gen_type(rng, 3)
+            if t[0] in roots:
+                return {"type": t}
+        return None
+
+    def build(desc):
+        obj = _build_type(desc["type"])
+        return (lambda: getattr(obj, member)), {"self": obj}
+
+    return gen, build
+
+
+for _q, _roots in ((PRIMITIVE, ["prim"]), (VOID_T, ["prim"]), (FIXED, ["fixed"]), (VARIABLE, ["var"]), (STRUCT, ["struct"]),
+                   (UNION, ["union"]), (DELIMITED, ["delimited"])):
+    _g, _b = _type_case("bit_length_set", _roots)
+    NATIVE.add(_q + ".bit_length_set", _g, _b)
+for _q, _roots in ((ARRAY, ["fixed", "var"]), (COMPOSITE, ["struct", "union", "delimited"])):
+    _g, _b = _type_case("alignment_requirement", _roots)
+    NATIVE.add(_q + ".alignment_requirement", _g, _b)
+_g, _b = _type_case("extent", ["struct", "union"])
+NATIVE.add(COMPOSITE + ".extent", _g, _b)
+_g, _b = _type_case("extent", ["delimited"])
+NATIVE.add(DELIMITED + ".extent", _g, _b)
+
+
+def _agg_case(cls_name):
+    def gen(rng, i):
+        n = rng.choice([0, 1, 2, 3, 4]) if cls_name == "StructureType" else rng.choice([0, 1, 2, 3, 256, 257])
+        base = [_gen_type(rng, 2, big=False) for _ in range(min(n, 4))]
+        return {"types": base, "n": n}
+
+    def build(desc):
+        from pydsdl import _serializable as S
+
+        ts = [_build_type(t) for t in desc["types"]]
+        ts = [t if not isinstance(t, (S.ByteType, S.UTF8Type)) else S.UnsignedIntegerType(8, S.PrimitiveType.CastMode.TRUNCATED)
+              for t in ts]
+        while ts and len(ts) < desc["n"]:
+            ts.append(ts[len(ts) % max(1, len(desc["types"]))])
+        cls = getattr(S, cls_name)
+        return (lambda: cls.aggregate_bit_length_sets(ts)), {"field_types": ts}
+
+    return gen, build
+
+
+_g, _b = _agg_case("StructureType")
+NATIVE.add(STRUCT + ".aggregate_bit_length_sets", _g, _b)
+_g, _b = _agg_case("UnionType")
+NATIVE.add(UNION + ".aggregate_bit_length_sets", _g, _b)
+
+
+def _gen_tag(rng, i):
+    return {"n": rng.choice([2, 3, 255, 256, 257, 65536, 65537])}
+
+
+def _build_tag(desc):
+    from pydsdl import _serializable as S
+
+    u8 = S.UnsignedIntegerType(8, S.PrimitiveType.CastMode.TRUNCATED)
+    ts = [u8] * desc["n"]
+    return (lambda: S.UnionType._compute_tag_bit_length(ts)), {"field_types": ts}
+
+
+NATIVE.add(UNION + "._compute_tag_bit_length", _gen_tag, _build_tag)
+
+
+def _gen_varinit(rng, i):
+    return {"elem": _gen_type(rng, 1, big=False), "capacity": rng.choice(_BOUNDARY_CAPS + [0, -1, 2 ** 64 - 1, 2 ** 64])}
+
+
+def _build_varinit(desc):
+    from pydsdl import _serializable as S
+
+    e = _build_type(desc["elem"])
+    return (lambda: S.VariableLengthArrayType(e, desc["capacity"])), {"element_type": e, "capacity": desc["capacity"]}
+
+
+class _VarInitNative:
+    pass
+
+
+NATIVE.add(VARIABLE + ".__init__", _gen_varinit, _build_varinit)
+
+
+def _varinit_extra(ns):
+    t = ns.self
+    return t.length_field_type.bit_length == PREFIX_WIDTH(t.capacity) and SETEQ(D(t.bit_length_set), L(t))
+
+
+_VariableInit.native_extra_post = staticmethod(_varinit_extra)
